@@ -28,6 +28,14 @@ Tol(chk, dt) ==
     [] chk = "jinvp"      -> SqrtTol(dt)   \* Jinvp(X,p)  vs  d/dh Log(Exp(h p) X)
     [] chk = "jr"         -> SqrtTol(dt)   \* Jr(x)       vs  d/dd Log(Exp(x)^-1 Exp(x+d))
     [] chk = "jr_zero"    -> 0         \* Jr(0) = I exactly
+    [] chk = "jinvp_mid"  -> IF dt = "f64" THEN 60000 ELSE SqrtTol(dt)
+                             \* Jinvp at moderate |Log X| (the Sim3 truncation allowance is small there); for f64 the
+                             \* error and the allowance are logged in units of 1e-12 (4 sqrt(eps) = 6e-8 = 60000 units)
+                             \* so that errors up to 1e-3 stay below the cap of the integer encoding
+    [] chk = "grad_exp_act" -> SqrtTol(dt) \* autograd d Act(Exp(x), p)/dx  vs  finite differences of expm(hat x) p
+    [] chk = "grad_log"   -> SqrtTol(dt)   \* autograd left-perturbation Jacobian of Log  vs  d/dh Log(Exp(h e_i) X)
+    [] chk = "grad_logexp" -> SqrtTol(dt)  \* autograd d Log(Exp(x) @ Y)/dx  vs  finite differences
+    [] chk = "grad_zero_slot" -> 0         \* the slot of a group gradient beyond the manifold dimension is exactly zero
     [] chk = "adj_lin"    -> 256       \* Adj / AdjT as matrices: generic floats vs conjugation of generators
     [] chk = "adjT_lin"   -> 256
     [] OTHER              -> 0
